@@ -54,7 +54,9 @@ RULE = ("every history of depth 4 (quick) / 5 (thorough) over 13 letters (thorou
         "stated on the implementation: every public property, setter, method and special method of the five classes (found with "
         "dir()), with arguments in and out of range and caught errors, on connected and disconnected complexes, strands, "
         "macrostates and reactions, then all references (or all but a few) dropped: only what the kept objects contain survives, "
-        "the registries hold nothing else and the released names are redefinable")
+        "the registries hold nothing else and the released names are redefinable; the member lists handed to macrostates and "
+        "reactions are the caller's own and are cleared, popped, appended to, overwritten, reversed (or are tuples) after the "
+        "construction, with only the containers kept: the containers report and keep alive exactly the members they were built from")
 
 
 def reader_release(ctx):
@@ -210,8 +212,12 @@ def _cat_kind(S, ref):
     return "S" if ref[0] == "C" and S[2][ref[1]][1] is None else ref[0]
 
 
+TIDY = {0: "", 1: "{v}.clear()", 2: "{v}.pop()", 3: "{v}.append({o})", 4: "{v}[:] = [{o}]", 5: "", 6: "del {v}[0]", 7: "{v}.reverse()"}
+
+
 def _qr_snippet(arg):
-    dk, doms, cplxs, macros, rxns, queries, keep = arg
+    dk, doms, cplxs, macros, rxns, queries, keep = arg[:7]
+    tidy = arg[7] if len(arg) > 7 else None
 
     def val(a):
         if isinstance(a, list) and a and a[0] == "#t":
@@ -232,12 +238,27 @@ def _qr_snippet(arg):
             L.append(f"C.append({['StrandS', 'StrandA'][k]}({sq}, name={name!r}))")
         else:
             L.append(f"C.append({['ComplexS', 'CplxA'][k]}({sq}, list({sst!r}), name={name!r}))")
-    for ms, k in macros:
-        L.append(f"M.append({['MacrostateS', 'MacA'][k]}([" + ", ".join(f"C[{i}]" for i in ms) + "]))")
-    for re, pr, rtype, over, k in rxns:
+    def own(var, p, idx, mode, n):
+        """the caller's own container, and what the caller does with it afterwards"""
+        other = next((j for j in range(n) if j not in idx), 0)
+        br = "()" if mode == 5 else "[]"
+        return (f"{var} = {br[0]}" + "".join(f"{p}[{i}], " for i in idx) + br[1], TIDY[mode].format(v=var, o=f"{p}[{other}]"))
+    for j, (ms, k) in enumerate(macros):
+        if tidy is None:
+            L.append(f"M.append({['MacrostateS', 'MacA'][k]}([" + ", ".join(f"C[{i}]" for i in ms) + "]))")
+        else:
+            a, after = own("cs", "C", ms, tidy[0][j], len(cplxs))
+            L.append(f"{a}; M.append({['MacrostateS', 'MacA'][k]}(cs)); {after or 'pass'}; del cs")
+    for j, (re, pr, rtype, over, k) in enumerate(rxns):
         p = "C" if over == "c" else "M"
-        L.append(f"R.append({['ReactionS', 'RxnA'][k]}([" + ", ".join(f"{p}[{i}]" for i in re) + "], [" +
-                 ", ".join(f"{p}[{i}]" for i in pr) + f"], {rtype!r}))")
+        if tidy is None:
+            L.append(f"R.append({['ReactionS', 'RxnA'][k]}([" + ", ".join(f"{p}[{i}]" for i in re) + "], [" +
+                     ", ".join(f"{p}[{i}]" for i in pr) + f"], {rtype!r}))")
+        else:
+            n = len(cplxs) if over == "c" else len(macros)
+            a, after_a = own("re", p, re, tidy[1][j][0], n)
+            b, after_b = own("pr", p, pr, tidy[1][j][1], n)
+            L.append(f"{a}; {b}; R.append({['ReactionS', 'RxnA'][k]}(re, pr, {rtype!r})); {after_a or 'pass'}; {after_b or 'pass'}; del re, pr")
     L.append("refs = {k: [(repr(o), weakref.ref(o)) for o in v] for k, v in (('D', D), ('C', C), ('M', M), ('R', R))}")
     L.append("del d")
     for (kind, i), name, args, mode in queries:
@@ -256,6 +277,8 @@ def _qr_snippet(arg):
                                   "list(r) if hasattr(r, '__next__') else None") + "; del r"
         L.append(f"try: {stmt}\nexcept Exception: pass")
     L.append("kept = [" + ", ".join(f"{k}[{i}]" for k, i in keep) + "]")
+    if tidy is not None:
+        L.append("print('macrostates:', [[x.name for x in m.complexes] for m in M], ' reactions:', [([x.name for x in r.reactants], [x.name for x in r.products]) for r in R])")
     L.append("del D, C, M, R")
     L.append("print('alive:', [n for v in refs.values() for n, r in v if r() is not None], ' kept:', kept)")
     return "\n".join(L)
@@ -415,6 +438,97 @@ def queries_release(ctx):
 
 
 # ---------------------------------------------------------------------------
+# a container holds its members itself: the member lists handed to MacrostateS / ReactionS are the caller's own, and the
+# caller goes on using them (clear() as show_memory() recommends, pop, append, slice assignment, reuse) while holding the
+# container only -- direct statement on the implementation (op c05_tidy_release)
+def _tidy_shrink(arg):
+    from common import run_impl
+    flat = [("m", j, 0) for j in range(len(arg[3]))] + [("r", j, s) for j in range(len(arg[4])) for s in (0, 1)]
+
+    def only(which, queries, keep):
+        t = [[0] * len(arg[3]), [[0, 0] for _ in arg[4]]]
+        for w, j, s in which:
+            if w == "m":
+                t[0][j] = arg[7][0][j]
+            else:
+                t[1][j][s] = arg[7][1][j][s]
+        return arg[:5] + [queries, keep, t]
+    cands = [only([f], [], [k]) for f in flat for k in arg[6]] + [only([f], [], arg[6]) for f in flat] + \
+            [only(flat, [], arg[6]), only(flat, arg[5], arg[6])]
+    res = run_impl([("c05_tidy_release", c) for c in cands])
+    arg = next((c for c, r in zip(cands, res) if _qr_bad(r)), arg)
+    for _ in range(8):          # objects nothing refers to
+        cands = [c + [[[m for j, m in enumerate(arg[7][0]) if not (kind == "M" and j == i)],
+                       [m for j, m in enumerate(arg[7][1]) if not (kind == "R" and j == i)]]]
+                 for kind, n in (("R", len(arg[4])), ("M", len(arg[3])), ("C", len(arg[2])), ("D", len(arg[1])))
+                 for i in range(n) for c in [_qr_remove(arg[:7], kind, i)] if c is not None]
+        if not cands:
+            break
+        res = run_impl([("c05_tidy_release", c) for c in cands])
+        best = next((c for c, r in zip(cands, res) if _qr_bad(r)), None)
+        if best is None:
+            break
+        arg = best
+    return arg
+
+
+def containers_tidied(ctx):
+    """macrostates and reactions hold their members themselves, whatever the caller does with the lists it passed"""
+    import gen_structs as gs
+    from common import run_impl, Err
+    import time
+    t0 = time.time()
+    rng, quick = ctx.rng, ctx.tier == "quick"
+    cat = run_impl([("c05_catalogue", None)])[0]
+    cat = {} if isinstance(cat, Err) else {k: [tuple(e) for e in v] for k, v in cat}
+    structs = list(gs.all_wf(5))
+    modes = [0, 1, 1, 1, 2, 2, 3, 4, 5, 6, 7]
+    args = []
+    while len(args) < (250 if quick else 5000):
+        S = _system(rng, structs)
+        if not S[3] and not S[4]:
+            continue
+        refs = _refs(S)
+        qs = []
+        for _ in range(rng.randrange(0, 3) if cat else 0):
+            ref = rng.choice(refs)
+            n, w = rng.choice(cat[_cat_kind(S, ref)])
+            qs.append(_query(rng, S, ref, n, w))
+        holders = [[k, i] for k, n in (("M", len(S[3])), ("R", len(S[4]))) for i in range(n)]
+        x = rng.random()
+        keep = [] if x < 0.15 else [list(h) for h in rng.sample(holders, min(len(holders), rng.randrange(1, 3)))]
+        if x > 0.8:
+            keep.append(list(rng.choice(refs)))
+            keep = [k for i, k in enumerate(keep) if k not in keep[:i]]
+        tidy = [[rng.choice(modes) for _ in S[3]], [[rng.choice(modes), rng.choice(modes)] for _ in S[4]]]
+        args.append(S + [qs, keep, tidy])
+    res = run_impl([("c05_tidy_release", a) for a in args])
+    bad, reported = 0, set()
+    for a, r in zip(args, res):
+        if not _qr_bad(r):
+            continue
+        bad += 1
+        if len(reported) >= 3:
+            continue
+        small = _tidy_shrink(a)
+        used = sorted({m for m in small[7][0]} | {m for p in small[7][1] for m in p})
+        key = {"tidy_release": used, "macros": len(small[3]), "rxns": len(small[4])}
+        if repr(key) in reported:
+            continue
+        reported.add(repr(key))
+        r2 = run_impl([("c05_tidy_release", small)])[0]
+        ctx.violation("counterexample", {"key": key, "input": {"tidy_release": small},
+                                         "what": repr(r2) if isinstance(r2, Err) else "; ".join(r2[0]),
+                                         "snippet": _qr_snippet(small)})
+    ctx.add_eval(len(args), len(args))
+    ctx.cov["correspondence"]["containers-hold-members-themselves(impl)"] = {
+        "cases": len(args), "failures": bad,
+        "containers_modified_afterwards": sum(1 for a in args for m in a[7][0] + [x for p in a[7][1] for x in p] if m not in (0, 5)),
+        "one_member_sides": sum(1 for a in args for r in a[4] for side in r[:2] if len(side) == 1),
+        "wall_s": round(time.time() - t0, 1)}
+
+
+# ---------------------------------------------------------------------------
 # no loss while referenced, across (re)configurations of the reader: sessions of set_io_objects (partial arguments, user
 # classes, the base class passed explicitly) / clear_io_objects / read_pil (documents over ONE small name space, so that a
 # later document re-declares the names of an earlier one) / direct constructions / drops, results held by the user;
@@ -513,6 +627,7 @@ def run(ctx):
         ctx.violation("counterexample", {"key": {"extra": f["steps"]}, "input": f["steps"], "what": "; ".join(f["what"]),
                                          "snippet": "# harness/oracles/c15_extra.py, steps: " + repr(f["steps"])})
     rh.run_check(ctx, "C05", batches, RULE, partial=PARTIAL)
+    containers_tidied(ctx)          # (draws after all older generators: their streams stay as they were)
 
 
 def replay(data):
@@ -525,6 +640,11 @@ def replay(data):
     if isinstance(inp, dict) and "query_release" in inp:
         from common import run_impl
         r = run_impl([("c05_query_release", inp["query_release"])])[0]
+        print(r)
+        return 1 if _qr_bad(r) else 0
+    if isinstance(inp, dict) and "tidy_release" in inp:
+        from common import run_impl
+        r = run_impl([("c05_tidy_release", inp["tidy_release"])])[0]
         print(r)
         return 1 if _qr_bad(r) else 0
     if isinstance(inp, dict) and "reader_session" in inp:
